@@ -310,7 +310,38 @@ class Processor:
         else:
             new_value = value
 
+        # Only an existing parameter can be modified
+        if not self.has(key):
+            raise KeyError(
+                f"Cannot set parameter {key!r}: this parameter does not exist."
+            )
+
         obj, att = _get_obj_att(self, key)
+
+        # A key must address a setting, not a part of the processor's structure
+        # (e.g. 'pipeline', 'detector.geometry' or 'pipeline.photon_collection.model_name')
+        from pyxel.detectors import Characteristics, Detector, Environment, Geometry
+        from pyxel.pipelines import Arguments, ModelFunction
+
+        try:
+            current = obj[att] if isinstance(obj, dict) else getattr(obj, att)
+        except (AttributeError, KeyError, ValueError):
+            current = None
+
+        if isinstance(
+            current,
+            Detector
+            | Geometry
+            | Environment
+            | Characteristics
+            | DetectionPipeline
+            | ModelGroup
+            | ModelFunction
+            | Arguments,
+        ):
+            raise KeyError(
+                f"Cannot set parameter {key!r}: this key does not refer to a setting."
+            )
 
         if isinstance(obj, dict) and att in obj:
             obj[att] = new_value
